@@ -14,6 +14,10 @@ Tie:
      instructions (opcodes, operands incl. jump distances, Closure descriptors; constants by value).
  (c) impl == S: printed output of the rendered program on the real implementation == eval_cells; metamorphic
      triple (top level wrapped in a function / a block / a fiber prints the same).
+     Directed family `run_crossfiber` (round 7, source texts outside the mini-language: fibers created first and called later with an
+     argument, Fiber.yield): closures MADE on one fiber over variables that are OPEN on another fiber's stack and locals of their own, in
+     both directions between the same two stacks; oracle = the full reference interpreter (SpecScripts.run_case) = the expectation the
+     generator tracks; run on both builds, traces replayed through Upvalues.v.
 Known classes (notes/C06-findings.json): unwind_leaves_open_upvalue, break_dead_pops - attributed by ablation:
 the model with that one repair switched on equals the Spec, and the model as configured equals the implementation."""
 import json
@@ -27,13 +31,14 @@ from yvlib import hx, log
 LEVEL = "proof"
 TRUSTED = [
     "Coq 8.16.1 kernel (coqc), vm_compute; no native_compute, no extraction",
-    "translator/translate_c06.py (token shapes of break_statement, unwind_stack, try_statement, capture_upvalue, close_upvalues, add_upvalue, emit_scope_end, mark_initialised, mark_last_initialised, close_upvalue_impl, return_impl) and translate.py (LOCALS_MAX, UPVALUES_MAX, opcode numbering)",
+    "translator/translate_c06.py (token shapes of break_statement, unwind_stack, try_statement, capture_upvalue, close_upvalues, add_upvalue, emit_scope_end, mark_initialised, mark_last_initialised, close_upvalue_impl, return_impl, closure_impl) and translate.py (LOCALS_MAX, UPVALUES_MAX, opcode numbering)",
     "hook H4 (vm.rs verif_trace, feature verif_hooks), the harness `yv` with ext_c06.rs `utrace`, tools/*.py (Python: generators, bytecode decoder, trace segmentation)",
     "ScopeLang.render (Coq) produces the source text that both sides run; the yarel scanner/parser turn it into the intended program (checked by the byte-level compiler correspondence)",
     "modelled, not verified: Rust raw-pointer arithmetic on the fiber stack (slot = (ptr - base)/size_of::<Value>), RefCell/Gc, the GC (closed upvalues stay alive)",
 ]
 ASSUMPTIONS = [
     "the mini-language (blocks, fn, lambdas, bounded for, if <, break, continue, return, throw/try-catch, fibers, vec escape) spans the capture patterns of the property; methods/classes are not generated (their `self` slot is an ordinary parameter slot for capture purposes)",
+    "the cross-fiber family (fibers created first and called later, Fiber.yield: outside the mini-language) is judged against the full reference interpreter SpecScripts.run_case (other owners' Coq files), which must agree with the expectation the generator tracks in Python cells",
     "eval_cells is the Spec for the mini-language: one cell per executed declaration, closures hold cells, the for-loop variable is ONE variable per loop (for_statement declares it in the loop's outer scope) that holds the StopIter value after exhaustion",
 ]
 
@@ -694,8 +699,60 @@ class G:
         after += [("decl", self.fresh(), ("vec",)), ("print", CALL(get, L(3))), ("print", CALL(get, L(4)))]
         return [self.dummy(get, 1), self.dummy(put, 1)] + scope + after
 
+    def t_crossfiber(self):
+        """a lambda made on one fiber (over variables s.. that stay OPEN on that fiber's stack) RUNS ON ANOTHER fiber and there, in a
+        block of its own, makes closures over s.. AND block locals (capture descriptors `inherited` and `local` mixed in a random
+        order); the block ends, new locals take over the slots; the closures are used on the other fiber, on the first one while
+        s.. are live (and written by the declaring scope), and after everything has been closed.  (Within the mini-language the
+        second fiber is always created by the first; the directed family `run_crossfiber` has both directions.)"""
+        r = self.rng
+        self.tags.add("closure_made_on_another_fiber_than_its_inherited_variable")
+        hg, hb, hl = self.fresh(), self.fresh(), self.fresh()
+        svars = [self.fresh() for _ in range(r.randint(1, 2))]
+        own = [self.fresh() for _ in range(r.randint(1, 2))]
+        mk = self.fresh()
+
+        def mix():
+            seq = r.sample(svars, r.randint(1, len(svars))) + r.sample(own, r.randint(1, len(own)))
+            r.shuffle(seq)
+            if seq[0] in svars:
+                self.tags.add("crossfiber_first_descriptor_inherited")
+            return seq
+
+        def total(seq):
+            e = V(seq[0])
+            for z in seq[1:]:
+                e = ADD(e, V(z))
+            return e
+        g, b, l = mix(), mix(), mix()
+        blk = [("decl", o, L(10 * (i + 1) + r.randint(0, 9))) for i, o in enumerate(own)]
+        blk += self.publish(hg, [], [("return", total(g))])
+        blk += self.publish(hb, [], [("assign", x, ADD(V(x), L(1))) for x in b] + [("return", total(b))])
+        if r.random() < 0.5:
+            blk.append(("print", CALL(hb)))
+        blk += self.publish(hl, [], [("return", total(l))])
+        body = [("decl", self.fresh(), self.lit()) for _ in range(r.randint(0, 2))]
+        body.append(("block", [("decl", self.fresh(), self.lit()), ("block", blk)]) if r.random() < 0.3 else ("block", blk))
+        later = self.fresh()
+        body += [("decl", later, L(5000 + r.randint(0, 9))), ("decl", self.fresh(), L(6000)), ("print", V(later))]
+        if r.random() < 0.6:
+            body += [("print", CALL(hg)), ("print", CALL(hl))]
+        body.append(("return", L(0)))
+        inner = [("decl", self.fresh(), self.lit()) for _ in range(r.randint(0, 2))]
+        inner += [("decl", s, L(100 * (i + 1) + r.randint(0, 9))) for i, s in enumerate(svars)]
+        inner.append(("lam", mk, [], body))
+        inner.append(("fiber", [("expr", CALL(mk))] if r.random() < 0.6 else
+                      [("decl", self.fresh(), self.lit()), ("expr", CALL(mk)), ("print", CALL(hb))]))
+        inner.append(("assign", svars[0], ADD(V(svars[0]), L(1000))))
+        inner += self.observe([CALL(hg), CALL(hb), CALL(hl)], 3) + [("print", V(svars[0]))]
+        host = r.choice(["wrap", "fiber", "fiber"])
+        self.tags.add("crossfiber_host:" + host)
+        scope = [("fiber", inner)] if host == "fiber" else self.exit_wrap(inner)
+        return [self.dummy(hg), self.dummy(hb), self.dummy(hl)] + scope + [("decl", self.fresh(), ("vec",))] + \
+            self.observe([CALL(hg), CALL(hb), CALL(hl)], 4)
+
     TEMPLATES = ["t_shared", "t_many", "t_deep", "t_params", "t_loop", "t_shadow", "t_escape", "t_exits", "t_throw",
-                 "t_reuse", "t_fiber", "t_selfrec", "t_adjacent", "t_fiberend"]
+                 "t_reuse", "t_fiber", "t_selfrec", "t_adjacent", "t_fiberend", "t_crossfiber"]
 
     def program(self, allow_throw=True):
         r = self.rng
@@ -1000,6 +1057,18 @@ def model_trace_cmp(steps, mtrace, mapping):
 
 # ---------------------------------------------------------------------------------------------------------
 
+def run_checked(binary, lines, case_timeout_ms=10000):
+    """yvlib.run_harness + machine load: a case that crashed / timed out inside a batch (a whole shard may run out of time when the
+    machine is overloaded) is re-run ALONE with a generous time-out before it is believed; a real crash reproduces"""
+    recs = yvlib.run_harness(binary, lines, case_timeout_ms=case_timeout_ms)
+    left = 40                       # bounded: when everything crashes, re-running is pointless
+    for i, r in enumerate(recs):
+        if r.crashed and left > 0:
+            left -= 1
+            recs[i] = yvlib.run_harness(binary, [lines[i]], case_timeout_ms=max(60000, 3 * case_timeout_ms), shards=1)[0]
+    return recs
+
+
 def norm_out(lines):
     return [re.sub(r" @ (0x[0-9a-f]+|ADDR)", "", l) for l in lines]
 
@@ -1072,14 +1141,14 @@ REPL_PROBES = [
 def run_probes(ctx, stats):
     fast = ctx.harness("release")
     binary = ctx.harness("debug")
-    recs = yvlib.run_harness(fast, ["run - " + hx(src) for _, src, _, _ in PROBES], case_timeout_ms=10000)
-    drecs = yvlib.run_harness(binary, ["run - " + hx(src) for _, src, _, _ in PROBES], case_timeout_ms=10000)
-    trecs = yvlib.run_harness(binary, ["utrace - 20000 " + hx(src) for _, src, _, _ in PROBES], case_timeout_ms=20000)
+    recs = run_checked(fast, ["run - " + hx(src) for _, src, _, _ in PROBES], case_timeout_ms=10000)
+    drecs = run_checked(binary, ["run - " + hx(src) for _, src, _, _ in PROBES], case_timeout_ms=10000)
+    trecs = run_checked(binary, ["utrace - 20000 " + hx(src) for _, src, _, _ in PROBES], case_timeout_ms=20000)
     # repl sessions, on both builds (the debug build collects at every allocation)
     for name, snips, expect in REPL_PROBES:
         line = "repl - " + " ".join(hx(x) for x in snips)
         for build, b in (("release", fast), ("debug", binary)):
-            r = yvlib.run_harness(b, [line], case_timeout_ms=10000)[0]
+            r = run_checked(b, [line], case_timeout_ms=10000)[0]
             got = norm_out(r.output)
             if got != expect or r.crashed:
                 ctx.violation("repl probe %s (%s build): printed output differs from the expected one" % (name, build),
@@ -1142,7 +1211,7 @@ def run_limits(ctx, stats):
         for na in (200, 128, n - 200):
             cases.append((n, na, n - na))
     progs = [limit_program(na, nb) for _, na, nb in cases]
-    recs = yvlib.run_harness(fast, ["run - " + hx(src) for src, _ in progs], case_timeout_ms=20000)
+    recs = run_checked(fast, ["run - " + hx(src) for src, _ in progs], case_timeout_ms=20000)
     outcome = {}
     for (n, na, nb), (src, expect), r in zip(cases, progs, recs):
         got = norm_out(r.output)
@@ -1159,6 +1228,352 @@ def run_limits(ctx, stats):
         outcome["%d=%d+%d" % (n, na, nb)] = "VIOLATION"
     stats["limit_family"] = outcome
     return len(cases)
+
+
+# ---------------------------------------------------------------------------------------------------------
+# directed family "cross-fiber capture" (round 7): closures MADE on one fiber while a variable they inherit is still OPEN on
+# ANOTHER fiber's stack.  Source texts outside the mini-language (fibers created first and called later with an argument,
+# Fiber.yield): the expected output is tracked in Python cells while the text is emitted AND computed by the full reference
+# interpreter (SpecScripts.run_case); both must agree before the implementation is judged.
+
+class XF:
+    """one program: two fibers P (host) and Q.  P declares variables s.. and a lambda mk over them; mk RUNS ON Q (Q.call(mk)):
+    in a block of its own it declares own.. and pushes three closures (getter, bump, late getter) that mix inherited s.. (open on
+    P's stack) and own.. (locals of the frame on Q's stack) in a random order of first mention (= order of the capture
+    descriptors); the block ends, later.. locals take over the slots, the closures are used on Q, on P while P's scope is live
+    (P writes s in between) and after everything is closed.  `symmetric`: Q, suspended by Fiber.yield with ITS variables t.. open,
+    hands a lambda of the same shape to P, which runs it on P's stack - so every program exercises both directions between the
+    same two stacks, whichever of them the allocator placed at the higher address."""
+
+    def __init__(self, rng):
+        self.r = rng
+        self.n = 0
+        self.cell = {}
+        self.tags = set()
+        self.out = []
+        self.exp = []
+
+    def name(self, stem):
+        self.n += 1
+        return "%s%d" % (stem, self.n)
+
+    def newvar(self, stem):
+        x = self.name(stem)
+        self.cell[x] = self.r.randint(1, 9) * 10 ** self.r.randint(0, 1) + self.n * 100
+        return x
+
+    def decl(self, ind, stem):
+        x = self.newvar(stem)
+        self.out.append("    " * ind + "var %s = %d;" % (x, self.cell[x]))
+        return x
+
+    @staticmethod
+    def show(vals):
+        return "[" + ", ".join(str(v) for v in vals) + "]"
+
+    def closures(self, inherited, own):
+        """(kind, source text, variables in order of first mention) of the three closures made inside the block"""
+        r = self.r
+
+        def pick():
+            a = r.sample(inherited, r.randint(1, len(inherited)))
+            b = r.sample(own, r.randint(1, len(own)))
+            first = r.choice(["inherited", "own", "mixed"])
+            if first == "inherited":
+                seq = a[:1] + r.sample(a[1:] + b, len(a) + len(b) - 1)
+            elif first == "own":
+                seq = b[:1] + r.sample(b[1:] + a, len(a) + len(b) - 1)
+            else:
+                seq = r.sample(a + b, len(a) + len(b))
+            self.tags.add("first_descriptor:" + ("inherited" if seq[0] in inherited else "own"))
+            if any(x in inherited and y in own for x, y in zip(seq, seq[1:])):
+                self.tags.add("own_descriptor_directly_after_inherited")
+            return seq
+        g, b, l = pick(), pick(), pick()
+        return [("get", "|| [%s]" % ", ".join(g), g),
+                ("bump", "|d| { %s return [%s]; }" % (" ".join("%s = %s + d;" % (x, x) for x in b), ", ".join(b)), b),
+                ("get", "|| [%s]" % ", ".join(l), l)]
+
+    def call(self, clos, holder, k, arg=None):
+        """(expression text, expected printed text) of calling closure k held in the vec `holder`; updates the cells"""
+        kind, _, vs = clos[k]
+        if kind == "bump":
+            for x in vs:
+                self.cell[x] += arg
+            return "%s[%d](%d)" % (holder, k, arg), self.show([self.cell[x] for x in vs])
+        return "%s[%d]()" % (holder, k), self.show([self.cell[x] for x in vs])
+
+    def use(self, clos, holder, ind, seq):
+        for k in seq:
+            text, e = self.call(clos, holder, k, self.r.randint(2, 9) if clos[k][0] == "bump" else None)
+            self.out.append("    " * ind + "print(%s);" % text)
+            self.exp.append(e)
+
+    def maker(self, mk, inherited, ind):
+        """emits  var mk = || { pads; var res = []; { own..; res.push(three closures); } later..; print; return res; };
+        returns (closures, account) - account() appends the lines ONE run of mk prints and updates the cells"""
+        r, out = self.r, self.out
+        I = "    " * ind
+        res = self.name("res")
+        deep = r.random() < 0.35        # the closures are made one function level further in (inherited through two levels)
+        if deep:
+            self.tags.add("made_in_nested_lambda")
+        out.append(I + "var %s = || {" % mk)
+        lvl = ind + 1
+        if deep:
+            inner = self.name("inner")
+            out.append("    " * lvl + "var %s = || {" % inner)
+            lvl += 1
+        for _ in range(r.randint(0, 2)):
+            self.decl(lvl, "pad")
+        out.append("    " * lvl + "var %s = [];" % res)
+        nest = r.randint(1, 2)
+        for i in range(nest):
+            out.append("    " * (lvl + i) + "{")
+            if i == 0 and nest == 2 and r.random() < 0.5:
+                self.decl(lvl + 1, "mid")
+        own = [self.decl(lvl + nest, "own") for _ in range(r.randint(1, 3))]
+        clos = self.closures(inherited, own)
+        split = r.random() < 0.5        # a call between the second and the third capture of the same variables
+        for k, (_, text, _) in enumerate(clos):
+            out.append("    " * (lvl + nest) + "%s.push(%s);" % (res, text))
+            if k == 1 and split:
+                out.append("    " * (lvl + nest) + "print(%s[1](1));" % res)
+        for i in range(nest - 1, -1, -1):
+            out.append("    " * (lvl + i) + "}")
+        later = [self.decl(lvl, "later") for _ in range(r.randint(1, 3))]
+        out.append("    " * lvl + "print(%s);" % " + ".join(later))
+        post = r.random() < 0.6
+        if post:
+            out.append("    " * lvl + "print(%s[0]());" % res)
+            out.append("    " * lvl + "print(%s[2]());" % res)
+        out.append("    " * lvl + "return %s;" % res)
+        if deep:
+            lvl -= 1
+            out.append("    " * lvl + "};")
+            out.append("    " * lvl + "return %s();" % inner)
+        out.append(I + "};")
+
+        def account():
+            if split:
+                self.exp.append(self.call(clos, res, 1, 1)[1])
+            self.exp.append(str(sum(self.cell[v] for v in later)))
+            if post:
+                self.exp.append(self.call(clos, res, 0)[1])
+                self.exp.append(self.call(clos, res, 2)[1])
+        return clos, account
+
+    def garbage(self, ind):
+        """other fibers allocated (kept or dropped) around the two: moves the stacks around in memory"""
+        for _ in range(self.r.randint(0, 2)):
+            self.out.append("    " * ind + ("KEEP.push(Fiber.new(|| 0));" if self.r.random() < 0.5 else "Fiber.new(|| 0).call();"))
+
+    def emit_q(self, q, ind, symmetric):
+        """Q's declaration.  symmetric: |f| { qpads; t..; var r = f(); var mk2 = ..; var back = Fiber.yield([r, mk2]);
+        t0 = t0 + 2000; uses of back / r; }"""
+        r, out = self.r, self.out
+        I = "    " * ind
+        if not symmetric:
+            out.append(I + "var %s = Fiber.new(|f| f());" % q)
+            return None
+        f, rr, back, mk2 = self.name("f"), self.name("r"), self.name("back"), self.name("mk")
+        out.append(I + "var %s = Fiber.new(|%s| {" % (q, f))
+        for _ in range(r.randint(0, 2)):
+            self.decl(ind + 1, "qpad")
+        tvars = [self.decl(ind + 1, "t") for _ in range(r.randint(1, 3))]
+        out.append(I + "    var %s = %s();" % (rr, f))
+        clos2, account2 = self.maker(mk2, tvars, ind + 1)
+        out.append(I + "    var %s = Fiber.yield([%s, %s]);" % (back, rr, mk2))
+        t0 = tvars[0]
+        out.append(I + "    %s = %s + 2000;" % (t0, t0))
+        tail = [(0, None), (1, r.randint(2, 9)), (2, None)]
+        for k, arg in tail:
+            out.append(I + "    print(%s[%d](%s));" % (back, k, "" if arg is None else str(arg)))
+        out.append(I + "    print(%s);" % t0)
+        out.append(I + "    print(%s[0]());" % rr)
+        out.append(I + "});")
+        return dict(r=rr, back=back, clos2=clos2, account2=account2, t0=t0, tail=tail)
+
+    def program(self):
+        r, out, exp = self.r, self.out, self.exp
+        host = r.choice(["block", "fn", "fiber", "fiber"])        # where P's variables live
+        symmetric = r.random() < 0.75
+        q_first = r.random() < 0.5                                  # Q created before P's scope / fiber exists, or inside it
+        abandon = symmetric and r.random() < 0.25                   # Q is never resumed and its handle dropped
+        self.tags |= {"host:" + host, "symmetric" if symmetric else "one_direction", "q_created:" + ("first" if q_first else "inside")}
+        if abandon:
+            self.tags.add("suspended_fiber_abandoned")
+        out += ["var R1 = nil;", "var R2 = nil;", "var KEEP = [];"]
+        q = self.name("q")
+        qs = None
+        if q_first:
+            self.garbage(0)
+            qs = self.emit_q(q, 0, symmetric)
+            self.garbage(0)
+        if host == "block":
+            opener, closer = "{", "}"
+        elif host == "fn":
+            hf = self.name("host")
+            opener, closer = "fn %s() {" % hf, "}\n%s();" % hf
+        else:
+            opener, closer = "Fiber.new(|| {", "}).call();"
+        out.append(opener)
+        I = "    "
+        for _ in range(r.randint(0, 2)):
+            self.decl(1, "ppad")
+        if not q_first:
+            self.garbage(1)
+            qs = self.emit_q(q, 1, symmetric)
+            self.garbage(1)
+        svars = [self.decl(1, "s") for _ in range(r.randint(1, 3))]
+        mk = self.name("mk")
+        clos1, account1 = self.maker(mk, svars, 1)
+        y, r1, r2 = self.name("y"), self.name("r"), self.name("r")
+        # direction 1: P's lambda runs on Q
+        if symmetric:
+            out.append(I + "var %s = %s.call(%s);" % (y, q, mk))
+            out.append(I + "var %s = %s[0];" % (r1, y))
+        else:
+            out.append(I + "var %s = %s.call(%s);" % (r1, q, mk))
+        account1()
+        s0 = svars[0]
+        out.append(I + "%s = %s + 1000;" % (s0, s0))
+        self.cell[s0] += 1000
+        self.use(clos1, r1, 1, [0, 1, 2, 0])
+        out.append(I + "print(%s);" % s0)
+        exp.append(str(self.cell[s0]))
+        if symmetric:
+            # direction 2: Q's lambda runs on P while Q is suspended with its variables open
+            out.append(I + "var %s = %s[1]();" % (r2, y))
+            qs["account2"]()
+            self.use(qs["clos2"], r2, 1, [0, 1, 2])
+            if abandon:
+                out.append(I + "%s = nil;" % q)
+                out.append(I + "%s = nil;" % y)
+            else:
+                out.append(I + "%s.call(%s);" % (q, r2))
+                self.cell[qs["t0"]] += 2000
+                for k, arg in qs["tail"]:
+                    exp.append(self.call(qs["clos2"], qs["back"], k, arg)[1])
+                exp.append(str(self.cell[qs["t0"]]))
+                exp.append(self.call(clos1, qs["r"], 0)[1])
+            out.append(I + "var %s = [\"noise\"];" % self.name("noise"))
+            self.use(qs["clos2"], r2, 1, [0, 1, 2])
+            out.append(I + "R2 = %s;" % r2)
+        self.use(clos1, r1, 1, [1, 0])
+        out.append(I + "R1 = %s;" % r1)
+        out.append(closer)
+        # after P's scope has ended
+        out.append("var %s = [\"noise\"];" % self.name("noise"))
+        self.use(clos1, "R1", 0, [0, 1, 2])
+        if symmetric:
+            self.use(qs["clos2"], "R2", 0, [2, 1, 0])
+        return "\n".join(out), exp, sorted(self.tags)
+
+
+def crossfiber_case(rng):
+    return XF(rng).program()
+
+
+def ref_interpreter(srcs, tag, fuel=2000):
+    """printed lines + result of the FULL reference interpreter (SpecScripts.run_case; other owners' files) per source text;
+    None per source when unavailable / unparsed"""
+    import binascii
+    if not all(os.path.exists(os.path.join(yvlib.COQ, "theories", f)) for f in ("SpecRun.vo", "ParseRun.vo", "SpecScripts.vo")):
+        return None
+    terms = ['run_case %d [] "%s"' % (fuel, binascii.hexlify(s.encode()).decode()) for s in srcs]
+    vals = yvlib.coq_eval(["YV:SpecScripts"], terms, shard_size=max(4, (len(terms) + 11) // 12), tag="C06ref" + tag,
+                          preamble="Open Scope string_scope.\n")
+    res = []
+    for v in vals:
+        mm = re.match(r"^out=\[([0-9a-f,]*)\];res=(ok|err|fuel)", v or "")
+        if not mm:
+            res.append(None)
+            continue
+        out = [binascii.unhexlify(x).decode("utf-8", "replace") for x in mm.group(1).split(",") if x] if mm.group(1) else []
+        res.append((out, mm.group(2)))
+    return res
+
+
+def xf_judge(ctx, src, expect, tags, builds, stats):
+    """runs one source of the family on the given builds (alone: used to confirm a deviation seen in a batch, and by --replay)"""
+    for build, b in builds:
+        r = run_checked(b, ["run - " + hx(src)], case_timeout_ms=20000)[0]
+        got = norm_out(r.output)
+        if got != expect or r.result[0] != "ok":
+            ctx.violation("cross-fiber capture family (%s build): a closure made on one fiber over a variable of another fiber and a "
+                          "local of its own prints something else than the reference interpreter" % build,
+                          input=src, expected=expect, actual=got + ([str(r.result)] if r.result[0] != "ok" else []), xf=True, tags=tags)
+            return False
+    return True
+
+
+def run_crossfiber(ctx, stats, n, ntrace):
+    fast, binary = ctx.harness("release"), ctx.harness("debug")
+    cases = [crossfiber_case(ctx.rng) for _ in range(n)]
+    fam = {"programs": n, "tags": {}, "agree_with_reference_interpreter": 0, "reference_interpreter_unavailable": 0,
+           "traces_replayed": 0, "trace_steps": 0, "fiber_switches_traced": 0, "captures_traced": 0}
+    for _, _, t in cases:
+        for x in t:
+            fam["tags"][x] = fam["tags"].get(x, 0) + 1
+    # the oracle: Python cells == full reference interpreter
+    try:
+        ref = ref_interpreter([s for s, _, _ in cases], "xf")
+    except RuntimeError as e:
+        ctx.notes.append("full reference interpreter did not evaluate (%s)" % str(e)[:160])
+        ref = None
+    if ref is None:
+        ctx.notes.append("SpecRun/ParseRun/SpecScripts not built: cross-fiber family judged against the expectation tracked in Python only")
+        fam["reference_interpreter_unavailable"] = n
+    else:
+        for (s, e, _), rv in zip(cases, ref):
+            if rv is None or rv[1] == "fuel":
+                fam["reference_interpreter_unavailable"] += 1
+            elif rv[0] == e and rv[1] == "ok":
+                fam["agree_with_reference_interpreter"] += 1
+            else:
+                ctx.broken.append("cross-fiber family: the expectation tracked by the generator differs from the full reference "
+                                  "interpreter (oracle inconsistent): %s | generator %s | SpecRun %s" % (s[:600], e, rv))
+    nviol = 0
+    for build, b in (("release", fast), ("debug", binary)):
+        recs = run_checked(b, ["run - " + hx(s) for s, _, _ in cases], case_timeout_ms=10000)
+        for (s, e, t), r in zip(cases, recs):
+            if (norm_out(r.output) != e or r.result[0] != "ok") and nviol < 3:
+                # confirm alone (machine load: a time-out in a batch proves nothing)
+                if not xf_judge(ctx, s, e, t, [(build, b)], stats):
+                    nviol += 1
+    # tie (a) on the family: trace replay through Upvalues.v, every reported list well-formed
+    tcases = cases[:ntrace]
+    trecs = run_checked(binary, ["utrace - 20000 " + hx(s) for s, _, _ in tcases], case_timeout_ms=20000)
+    terms, keep = [], []
+    for (s, e, t), r in zip(tcases, trecs):
+        steps = parse_trace(r)
+        if not steps:
+            continue
+        groups, info = trace_groups(steps, parse_functions(r))
+        fam["trace_steps"] += len(steps)
+        fam["fiber_switches_traced"] += info["switches"]
+        fam["captures_traced"] += info["captures"]
+        stats["trace_steps"] += len(steps)
+        for kk in ("captures", "closes", "returns", "unwinds", "switches"):
+            stats["ev_" + kk] += info[kk]
+        if info["lists_bad"] and nviol < 5:
+            nviol += 1
+            ctx.violation("cross-fiber capture family: a reported open-upvalue list violates upvalue_list_inv (an entry of a fiber's list "
+                          "does not point into that fiber's stack below the top, or the list is not strictly descending)", input=s,
+                          expected="strictly descending slots of the running fiber, below the stack top", actual=str(info["lists_bad"]),
+                          xf=True, tags=t)
+        terms.append("up_replay %s" % groups_wire(groups))
+        keep.append(s)
+    vals = yvlib.coq_eval(["YV:ScopeRun"], terms, shard_size=max(4, (len(terms) + 7) // 8), tag="C06xftr")
+    for s, v in zip(keep, vals):
+        if v is None or not v.startswith("ok"):
+            ctx.corr_broken.append("trace replay through Upvalues.v on a program of the cross-fiber family: %s | %s" % (v, s[:400]))
+        else:
+            fam["traces_replayed"] += 1
+    fam["samples"] = [cases[0][0]] if cases else []
+    stats["crossfiber_family"] = fam
+    return n
 
 
 def known_class_of(c, p):
@@ -1199,12 +1614,12 @@ def evaluate(ctx, progs, tag, trace_n=0, want_code=True):
             if a is not None and a.count("@") == 2:
                 d["model_break_fixed"], d["model_unwind_fixed"], d["model_both_fixed"] = a.split("@")
     live = [d for d in res if d is not None]
-    recs = yvlib.run_harness(fast, ["run - " + hx(d["src"]) for d in live], case_timeout_ms=10000)
-    crecs = yvlib.run_harness(fast, ["compile " + hx(d["src"]) for d in live], case_timeout_ms=10000) if want_code else [None] * len(live)
+    recs = run_checked(fast, ["run - " + hx(d["src"]) for d in live], case_timeout_ms=10000)
+    crecs = run_checked(fast, ["compile " + hx(d["src"]) for d in live], case_timeout_ms=10000) if want_code else [None] * len(live)
     # the same sources on the DEBUG build, whose collector runs at every allocation: a captured variable that is no longer owned by
     # anything the collector traces (an upvalue left open into a dead stack) shows there at once, in the release build only after
     # enough allocation
-    drecs = yvlib.run_harness(binary, ["run - " + hx(d["src"]) for d in live], case_timeout_ms=10000)
+    drecs = run_checked(binary, ["run - " + hx(d["src"]) for d in live], case_timeout_ms=10000)
     for d, r, c, dr in zip(live, recs, crecs, drecs):
         d["impl"] = impl_outcome(r)
         d["impl_debug"] = impl_outcome(dr)
@@ -1220,7 +1635,7 @@ def evaluate(ctx, progs, tag, trace_n=0, want_code=True):
     # traces
     tlive = [d for d in live if not d["spec"].endswith("stuck:fuel")][:trace_n]
     if tlive:
-        trecs = yvlib.run_harness(binary, ["utrace - 20000 " + hx(d["src"]) for d in tlive], case_timeout_ms=20000)
+        trecs = run_checked(binary, ["utrace - 20000 " + hx(d["src"]) for d in tlive], case_timeout_ms=20000)
         gterms, mterms = [], []
         for d, r in zip(tlive, trecs):
             steps = parse_trace(r)
@@ -1333,6 +1748,23 @@ def refspec_compare(ctx, ds, stats, tag):
                                  % (d["src"][:300], d["spec"], ref))
 
 
+def stage_membership(ctx, progs, tag):
+    """how many generated programs lie inside the fragments for which compile_scope_correct is PROVED (stage 4: `stmt6 true false
+    true false`; stage 5 = stage 4 + throw / try-catch: ScopeStage5.in_stage5); measured, evidence only"""
+    if not all(os.path.exists(os.path.join(yvlib.COQ, "theories", f)) for f in ("ScopeStage5.v", "ScopeDefsN.v")):
+        ctx.notes.append("ScopeStage5.v not present: membership in the proved fragments not counted")
+        return None
+    terms = ['ScopeRun.with_prog %s (fun p => String.append (if ScopeStage5.in_stage5 p then "T" else "F")%%string '
+             '(if List.forallb (ScopeDefsN.stmt6 true false true false) p then "T" else "F")%%string)' % wire(p) for p in progs]
+    try:
+        vals = yvlib.coq_eval(["YV:ScopeRun", "YV:ScopeDefsN", "YV:ScopeStage5"], terms, shard_size=max(8, (len(terms) + 7) // 8), tag="C06" + tag)
+    except RuntimeError as e:
+        ctx.notes.append("membership in the proved fragments not counted: %s" % str(e)[:200])
+        return None
+    return {"programs": len(progs), "in_stage5_fragment": sum(1 for v in vals if v and v[:1] == "T"),
+            "in_stage4_fragment": sum(1 for v in vals if v and v[1:2] == "T")}
+
+
 def new_stats():
     return {"evaluated": 0, "discarded_stuck": 0, "nontrivial": set(), "known": {}, "known_witness": {}, "traced": 0,
             "trace_steps": 0, "ev_captures": 0, "ev_closes": 0, "ev_returns": 0, "ev_unwinds": 0, "ev_switches": 0,
@@ -1348,7 +1780,7 @@ def script_traces(ctx, stats):
         if os.path.isdir(dd):
             files += [os.path.join(dd, f) for f in sorted(os.listdir(dd)) if f.endswith(".yl")]
     srcs = [open(f).read() for f in files]
-    recs = yvlib.run_harness(binary, ["utrace - 20000 " + hx(s) for s in srcs], case_timeout_ms=20000)
+    recs = run_checked(binary, ["utrace - 20000 " + hx(s) for s in srcs], case_timeout_ms=20000)
     terms, keep = [], []
     for f, r in zip(files, recs):
         steps = parse_trace(r)
@@ -1411,6 +1843,19 @@ def run(ctx):
     stats = new_stats()
     if ctx.replay_only:
         p = ctx.replay_only.get("prog")
+        if p is None and ctx.replay_only.get("xf"):
+            # a program of the cross-fiber family: the very source, alone, on both builds
+            ok = xf_judge(ctx, ctx.replay_only["input"], ctx.replay_only["expected"], ctx.replay_only.get("tags"),
+                          [("release", ctx.harness("release")), ("debug", ctx.harness("debug"))], stats) \
+                if isinstance(ctx.replay_only.get("expected"), list) else True
+            r = yvlib.run_harness(ctx.harness("debug"), ["utrace - 20000 " + hx(ctx.replay_only["input"])], case_timeout_ms=20000)[0]
+            info = trace_groups(parse_trace(r), parse_functions(r))[1]
+            if info["lists_bad"] and ok:
+                ctx.violation("cross-fiber capture family: a reported open-upvalue list violates upvalue_list_inv",
+                              input=ctx.replay_only["input"], expected="strictly descending, below the stack top",
+                              actual=str(info["lists_bad"]), xf=True)
+            ctx.cov.update({"evaluations": 1, "rule": "replay of one program of the cross-fiber family"})
+            return
         if p is None:
             # a violation of a directed family (fixed source texts): re-run those families
             n = run_probes(ctx, stats) + run_limits(ctx, stats)
@@ -1470,8 +1915,12 @@ def run(ctx):
         else:
             nmeta_ok += 1
     refspec_compare(ctx, [d for d in res if d is not None and "#stuck" not in d["spec"]][:(60 if quick else 500)], stats, "gen")
+    stages = stage_membership(ctx, [d["prog"] for d in res if d is not None and "#stuck" not in d["spec"]], "stages")
     nprobes = run_probes(ctx, stats)
     nlimits = run_limits(ctx, stats)
+    t0 = time.time()
+    nxf = run_crossfiber(ctx, stats, int((48 if quick else 400) * scale), int((16 if quick else 120) * scale))
+    log("[C06] cross-fiber family evaluated in %.1fs" % (time.time() - t0))
     t0 = time.time()
     nscripts = script_traces(ctx, stats)
     log("[C06] repository scripts traced in %.1fs" % (time.time() - t0))
@@ -1498,8 +1947,10 @@ def run(ctx):
     ctx.violations[:] = kkeep + other[:5]
     ctx.corr_broken[:] = ctx.corr_broken[:8]
     ctx.cov.update({
-        "evaluations": stats["evaluated"] + nscripts + nprobes + nlimits,
+        "evaluations": stats["evaluated"] + nscripts + nprobes + nlimits + nxf,
         "upvalue_limit_family": stats.get("limit_family", {}),
+        "crossfiber_family": stats.get("crossfiber_family", {}),
+        "generated_programs_inside_the_proved_fragments": stages,
         "probes_outside_the_mini_language": [n for n, _, _, _ in PROBES] + [n for n, _, _ in REPL_PROBES],
         "distinct_nontrivial": len(stats["nontrivial"]),
         "rule": "generated programs of the mini-language (templates: %s; each placed bare / in a block / in a function called once / in a loop / "
